@@ -1102,7 +1102,7 @@ func fullLeafAlphabet(thorough bool) []*Node {
 
 func main() {
 	vlib.Main("C11", "model_checking", func(c *vlib.Ctx) {
-		c.Rule("exhaustive enumeration of (1) API-built queries: every condition-tree shape up to the depth/arity bound filled with default leaves in 4 rotations x prefix x orderby/limit/offset; every shape with one position " +
+		c.Rule("exhaustive enumeration of (1) API-built queries: every condition-tree shape up to the depth/arity bound filled with default leaves in 4 rotations x prefix x orderby/limit/offset; every chain of <= 4 (thorough 6) wrappers {Not, one-member And, one-member Or} around 5 leaves in 5 surroundings; every shape with one position " +
 			"replaced by every leaf of the full alphabet (18 operators x int/float/bool/string/list/regex operand classes, boundary values, special-character keys); every string over the token alphabet " +
 			"(letters, blank, quote, backslash, parentheses, comma, multi-byte runes, keywords) in every token slot (4 string values, 7 condition keys, list elements, regex, prefix, orderby) x 8 surrounding contexts; " +
 			"clause-value cross product; and (2) parser inputs: all token strings, character strings and condition-unit strings up to the length bound, plus every enumerated object rendered in variant spellings of the documented grammar. " +
@@ -1256,6 +1256,7 @@ func run(c *vlib.Ctx) {
 	st := newStats()
 	defs := func(rot int) func(int) *Node { return func(p int) *Node { return defLeaf(p + rot) } }
 
+	wvinfo := &variantInfo{}
 	// ---- stage S: structure ----
 	type shapeSet struct {
 		name string
@@ -1300,6 +1301,57 @@ func run(c *vlib.Ctx) {
 		c.Extra("stage_structure_"+set.name, st.states-before)
 	}
 	c.Sample(map[string]any{"stage": "structure", "object": (&QSpec{Prefix: "db:k", Where: or(defLeaf(0), and(defLeaf(1), not(defLeaf(2)))), OrderBy: "z", Limit: 7}).goExpr()})
+
+	// ---- stage W: wrapper chains: every chain of <= 4 (thorough 6) wrappers out of {Not, one-member And, one-member Or} around a leaf ----
+	{
+		wdepth := vlib.Pick(c, 4, 6)
+		var chains [][]string
+		cur := [][]string{{}}
+		chains = append(chains, cur...)
+		for d := 0; d < wdepth; d++ {
+			var next [][]string
+			for _, ch := range cur {
+				for _, w := range []string{"not", "and", "or"} {
+					next = append(next, append(append([]string{}, ch...), w))
+				}
+			}
+			chains = append(chains, next...)
+			cur = next
+		}
+		wrap := func(ch []string, l *Node) *Node {
+			n := l
+			for i := len(ch) - 1; i >= 0; i-- {
+				switch ch[i] {
+				case "not":
+					n = not(n)
+				case "and":
+					n = and(n)
+				default:
+					n = or(n)
+				}
+			}
+			return n
+		}
+		wleaves := []*Node{defLeaf(0), defLeaf(1), defLeaf(3), leaf("a b", opSameAs, vStr("x y")), leaf("k", opIn, vStrs("x", "y"))}
+		c.Scenario(fmt.Sprintf("wrappers: all %d chains of <= %d wrappers {Not, And of one, Or of one} x %d leaves x 5 surroundings (alone, with clauses, first/last member of a two-member group, under Not in a group)", len(chains), wdepth, len(wleaves)))
+		before := st.states
+		parallel(c, st, len(chains), func(i int, l *localStats, hb *heartbeat) {
+			for _, lf := range wleaves {
+				w := func() *Node { return wrap(chains[i], lf.clone()) }
+				checkSpec(&QSpec{Prefix: "db:", Where: w()}, l, "wrappers")
+				checkSpec(&QSpec{Prefix: "db:k", Where: w(), OrderBy: "z", Limit: 7, Offset: 3}, l, "wrappers")
+				checkSpec(&QSpec{Prefix: "db:", Where: and(w(), defLeaf(2))}, l, "wrappers")
+				checkSpec(&QSpec{Prefix: "db:", Where: or(defLeaf(2), w())}, l, "wrappers")
+				checkSpec(&QSpec{Prefix: "db:", Where: and(defLeaf(2), not(w()))}, l, "wrappers")
+				for _, o := range []ropt{{}, {Paren: 2, Alias: true}, {PrefixNot: true}} {
+					checkVariant(&QSpec{Prefix: "db:", Where: w()}, o, l, wvinfo)
+					checkVariant(&QSpec{Prefix: "db:", Where: or(defLeaf(2), w())}, o, l, wvinfo)
+				}
+			}
+		})
+		c.Extra("stage_wrappers", st.states-before)
+		c.Sample(map[string]any{"stage": "wrappers", "object": (&QSpec{Prefix: "db:", Where: not(or(not(defLeaf(0))))}).goExpr()})
+	}
 
 	// ---- stage X: every shape, one position replaced by every leaf of the full alphabet ----
 	fl := fullLeafAlphabet(thorough)
@@ -1519,6 +1571,9 @@ func run(c *vlib.Ctx) {
 	c.Extra("variant_meaning_differences_informational", vinfo.meaningDiff)
 	if vinfo.example2 != "" {
 		c.Extra("variant_meaning_difference_example", vinfo.example2)
+	}
+	if wvinfo.selfReject > 0 {
+		c.EngineError("self-check (wrappers): the reference recogniser disagrees with the harness's own renderer on %d texts, e.g. %s", wvinfo.selfReject, wvinfo.example)
 	}
 	if vinfo.selfReject > 0 {
 		c.EngineError("self-check: the reference recogniser disagrees with the harness's own renderer on %d texts, e.g. %s", vinfo.selfReject, vinfo.example)
